@@ -75,7 +75,8 @@ func genC09(t *rapid.T) c09Case {
 		case "remFact":
 			c.Ops = append(c.Ops, op{K: "remFact", Loc: loc, Id: fmt.Sprintf("%s_f%d", loc, k)})
 		case "rule":
-			c.Ops = append(c.Ops, op{K: "addRule", Loc: loc, Id: fmt.Sprintf("%s_r%d", loc, k), Doc: M{"go": rapid.SampledFrom([]string{"1", "?g"}).Draw(t, l+".when")}})
+			c.Ops = append(c.Ops, op{K: "addRule", Loc: loc, Id: fmt.Sprintf("%s_r%d", loc, k), Doc: M{"go": rapid.SampledFrom([]string{"1", "?g"}).Draw(t, l+".when")},
+				B: rapid.IntRange(0, 2).Draw(t, l+".env") == 0})
 		case "remRule":
 			c.Ops = append(c.Ops, op{K: "remRule", Loc: loc, Id: fmt.Sprintf("%s_r%d", loc, k)})
 		case "disable", "enable":
@@ -104,6 +105,7 @@ func runC09(c c09Case) *vlib.Outcome {
 	patterns := []M{{"at": "?where"}, {"v": "x"}}
 	events := []M{{"go": "1"}, {"go": "2"}}
 	changedParentsThenInherited, deep, loop := false, false, false
+	envRule := map[string]bool{}
 	for i, x := range c.Ops {
 		if _, have := w.locs[x.Loc]; !have {
 			continue
@@ -124,8 +126,18 @@ func runC09(c c09Case) *vlib.Outcome {
 				o.Fail("REM_ERROR", "%s: %v", when, r.Err)
 			}
 		case "addRule":
-			if r := w.addRule(x.Loc, x.Id, mkRule(x.Doc, x.Id)); r.Err != nil {
+			rule := mkRule(x.Doc, x.Id)
+			if x.B {
+				// a condition that searches (with inheritance) and an
+				// action that uses the location functions: both must
+				// act on the location the event was sent to
+				rule["condition"] = M{"pattern": M{"at": "?w"}}
+				rule["action"] = M{"code": "Env.AddFact('made_' + ruleId, {made_in: Env.Location}); Env.Location"}
+			}
+			if r := w.addRule(x.Loc, x.Id, rule); r.Err != nil {
 				o.Fail("ADDRULE_ERROR", "%s: %v", when, r.Err)
+			} else {
+				envRule[x.Id] = x.B
 			}
 		case "remRule":
 			if r := w.remRule(x.Loc, x.Id); r.Err != nil {
@@ -174,7 +186,35 @@ func runC09(c c09Case) *vlib.Outcome {
 				}
 				w.checkListRules(ln, true, lwhen)
 				for _, e := range events {
-					w.checkEvent(ln, e, lwhen)
+					// how many facts the condition of an env rule finds
+					nAt := 0
+					for _, an := range order {
+						nAt += len(w.model[an].search(M{"at": "?w"}))
+					}
+					ectx := newCtx()
+					ectx.SetLoc(w.locs[ln])
+					w.eventCtx = ectx
+					ec := w.checkEvent(ln, e, lwhen)
+					w.eventCtx = nil
+					for id := range ec.NBind {
+						if envRule[id] && nAt > 0 {
+							// the action wrote into the location the
+							// event was sent to -- and nowhere else
+							w.model[ln].put("made_"+id, modelFactItem(M{"made_in": ln}))
+							o.Label("env-action-ran")
+						}
+					}
+					for _, v := range ec.Values {
+						if s, ok := v.(string); ok && len(s) == 1 && s != ln {
+							o.Fail("ACTION_SAW_WRONG_LOCATION", "%s: an action of an event sent to %s saw Env.Location = %q", lwhen, ln, s)
+						}
+					}
+					if len(ec.NBind) > 0 {
+						// the writes of the actions are checked at once
+						for _, l2 := range locs {
+							w.checkSearch(l2, M{"made_in": "?l"}, false, lwhen+" (facts made by actions, in "+l2+")")
+						}
+					}
 				}
 			}
 			if o.Failed() {
